@@ -1,7 +1,7 @@
 import JSight.Model.Include
 import JSight.Proofs.Include
 /-!
-C08 — INCLUDE handling at scan time (`scanFile` / `scanProject` of `JSight/Model/Include.lean`).
+C08 — INCLUDE handling at scan time (`scanIncFile` / `scanProject` of `JSight/Model/Include.lean`).
 Property theorems only (helper definitions and lemmas in `JSight/Proofs/Include.lean`).
 
 `Live fs root stack cur` (Proofs): the include stacks the scan can build — `Live.root : Live fs root [] root`, and
@@ -17,15 +17,15 @@ open JSight JSight.Gen
     (in particular before the pending directive is placed: `st` is arbitrary) -/
 theorem bad_target_rejected (fs : FS) (fuel : Nat) (stack : List (Nat × Nat)) (cur pos : Nat) (rest : List FTok)
     (st : PScan) (f : Nat) :
-    scanFile fs (fuel + 1) stack cur pos (FTok.incl f false :: rest) st = .error (.inc (.badName cur pos)) ∧
+    scanIncFile fs (fuel + 1) stack cur pos (FTok.incl f false :: rest) st = .error (.inc (.badName cur pos)) ∧
     (fs.get? f = none →
-      scanFile fs (fuel + 1) stack cur pos (FTok.incl f true :: rest) st = .error (.inc (.missing cur pos))) ∧
+      scanIncFile fs (fuel + 1) stack cur pos (FTok.incl f true :: rest) st = .error (.inc (.missing cur pos))) ∧
     (fs.get? f = some .directory →
-      scanFile fs (fuel + 1) stack cur pos (FTok.incl f true :: rest) st = .error (.inc (.isDirectory cur pos))) := by
+      scanIncFile fs (fuel + 1) stack cur pos (FTok.incl f true :: rest) st = .error (.inc (.isDirectory cur pos))) := by
   refine ⟨?_, ?_, ?_⟩
-  · rw [scanFile_incl]; rfl
-  · intro h; rw [scanFile_incl, h]; rfl
-  · intro h; rw [scanFile_incl, h]; rfl
+  · rw [scanIncFile_incl]; rfl
+  · intro h; rw [scanIncFile_incl, h]; rfl
+  · intro h; rw [scanIncFile_incl, h]; rfl
 
 /-! ## (4) JSIGHT inside an included file -/
 
@@ -33,7 +33,7 @@ theorem bad_target_rejected (fs : FS) (fuel : Nat) (stack : List (Nat × Nat)) (
     (the JSIGHT error, or an earlier error) -/
 theorem jsight_in_included_rejected (fs : FS) (fuel : Nat) (stack : List (Nat × Nat)) (cur pos : Nat)
     (pre post : List FTok) (d : Dir) (st r : PScan) (hk : d.kind = Kind.Jsight) (hs : stack ≠ []) :
-    scanFile fs fuel stack cur pos (pre ++ FTok.dir d :: post) st ≠ .ok r := by
+    scanIncFile fs fuel stack cur pos (pre ++ FTok.dir d :: post) st ≠ .ok r := by
   intro h
   obtain ⟨fuel', pos', st', h'⟩ := ok_suffix fs stack cur _ r pre fuel pos st h
   exact jsight_head_not_ok fs fuel' stack cur pos' d post st' r hk hs h'
@@ -43,12 +43,12 @@ theorem jsight_in_included_rejected (fs : FS) (fuel : Nat) (stack : List (Nat ×
 theorem jsight_in_included_error (fs : FS) (fuel : Nat) (stack : List (Nat × Nat)) (cur pos : Nat)
     (rest : List FTok) (d : Dir) (st st' : PScan) (hk : d.kind = Kind.Jsight) (hs : stack ≠ [])
     (hfl : flushPending st = .ok st') :
-    scanFile fs (fuel + 1) stack cur pos (FTok.dir d :: rest) st = .error (.inc (.jsightInIncluded cur pos)) := by
+    scanIncFile fs (fuel + 1) stack cur pos (FTok.dir d :: rest) st = .error (.inc (.jsightInIncluded cur pos)) := by
   have : stack.isEmpty = false := by
     cases stack with
     | nil => exact absurd rfl hs
     | cons a l => rfl
-  rw [scanFile_dir, hfl]; simp [hk, this]
+  rw [scanIncFile_dir, hfl]; simp [hk, this]
 
 /-- (4, project level) a project whose root file includes (with an accepted name) a file that contains a JSIGHT
     directive is never accepted -/
@@ -65,9 +65,9 @@ theorem jsight_in_included_project (fs : FS) (root f : Nat) (pre post bpre bpost
   · rename_i st hst
     obtain ⟨fuel', pos', st', h'⟩ := ok_suffix fs [] root _ st pre _ 0 {} hst
     cases fuel' with
-    | zero => rw [scanFile_zero] at h'; cases h'
+    | zero => rw [scanIncFile_zero] at h'; cases h'
     | succ n =>
-      rw [scanFile_incl_file fs n [] root pos' f post _ st' hf rfl] at h'
+      rw [scanIncFile_incl_file fs n [] root pos' f post _ st' hf rfl] at h'
       split at h'
       · cases h'
       · rename_i st'' hin
@@ -81,7 +81,7 @@ theorem stack_nodup_step (stack : List (Nat × Nat)) (cur pos : Nat) (hn : (stac
     (hs : stack.any (·.1 == cur) = false) : (((cur, pos) :: stack).map (·.1)).Nodup :=
   nodup_push hn hs
 
-/-- (1, the call) the only recursive call of `scanFile` with a different stack is made at a live stack again: below
+/-- (1, the call) the only recursive call of `scanIncFile` with a different stack is made at a live stack again: below
     a live `(stack, cur)`, at the token `incl f true` (position `pos` of `cur`) of an existing regular file `f`, the
     scan either stops with `recursion` (`cur` already on the stack) or continues in `f` below `(cur, pos) :: stack`,
     which is live; (the other recursive calls keep `stack` and `cur`) -/
@@ -90,17 +90,17 @@ theorem push_is_live (fs : FS) (root fuel : Nat) (stack : List (Nat × Nat)) (cu
     (hc : fs.get? cur = some (.file all)) (ht : FTok.incl f true :: rest = all.drop pos)
     (hf : fs.get? f = some (.file body)) :
     (stack.any (·.1 == cur) = true ∧
-      scanFile fs (fuel + 1) stack cur pos (FTok.incl f true :: rest) st = .error (.inc (.recursion cur pos))) ∨
+      scanIncFile fs (fuel + 1) stack cur pos (FTok.incl f true :: rest) st = .error (.inc (.recursion cur pos))) ∨
     (Live fs root ((cur, pos) :: stack) f ∧
-      scanFile fs (fuel + 1) stack cur pos (FTok.incl f true :: rest) st =
-        match scanFile fs fuel ((cur, pos) :: stack) f 0 body st with
+      scanIncFile fs (fuel + 1) stack cur pos (FTok.incl f true :: rest) st =
+        match scanIncFile fs fuel ((cur, pos) :: stack) f 0 body st with
         | .error e => .error e
-        | .ok st' => scanFile fs fuel stack cur (pos + 1) rest st') := by
+        | .ok st' => scanIncFile fs fuel stack cur (pos + 1) rest st') := by
   cases hs : stack.any (·.1 == cur) with
-  | true => left; refine ⟨rfl, ?_⟩; rw [scanFile_incl, hf]; simp [hs]
+  | true => left; refine ⟨rfl, ?_⟩; rw [scanIncFile_incl, hf]; simp [hs]
   | false =>
     right
-    exact ⟨Live.push hl hs hc (drop_cons ht).1 hf, scanFile_incl_file fs fuel stack cur pos f rest body st hf hs⟩
+    exact ⟨Live.push hl hs hc (drop_cons ht).1 hf, scanIncFile_incl_file fs fuel stack cur pos f rest body st hf hs⟩
 
 /-- (1) a live include stack never holds a file twice; its entries are INCLUDE tokens of existing files; it ends at the
     root file; hence its depth is at most the number of files -/
@@ -115,11 +115,11 @@ theorem stack_nodup (fs : FS) (root : Nat) (stack : List (Nat × Nat)) (cur : Na
 
 /-- (2, general) below a stack of pairwise distinct existing files, `(#files − depth) · fsSize + #tokens + 1` units of
     fuel suffice -/
-theorem scanFile_enough_fuel (fs : FS) (fuel : Nat) (stack : List (Nat × Nat)) (cur pos : Nat) (toks : List FTok)
+theorem scanIncFile_enough_fuel (fs : FS) (fuel : Nat) (stack : List (Nat × Nat)) (cur pos : Nat) (toks : List FTok)
     (st : PScan) (hn : (stack.map (·.1)).Nodup) (hm : ∀ x ∈ stack, x.1 ∈ fs.map (·.1)) (hc : cur ∈ fs.map (·.1))
     (hb : (fs.length - stack.length) * fsSize fs + toks.length + 1 ≤ fuel) :
-    scanFile fs fuel stack cur pos toks st ≠ .error (.inc .fuel) :=
-  scanFile_no_fuel fs fuel stack cur pos toks st hn hm hc hb
+    scanIncFile fs fuel stack cur pos toks st ≠ .error (.inc .fuel) :=
+  scanIncFile_no_fuel fs fuel stack cur pos toks st hn hm hc hb
 
 /-- (2) BOUNDED: `scanProject` never runs out of fuel — every include cycle ends in a diagnostic after finitely many
     steps. No hypothesis on the file system (file ids need not even be unique) -/
@@ -137,7 +137,7 @@ theorem scanProject_no_fuel (fs : FS) (root : Nat) : scanProject fs root ≠ .er
         unfold fuelBound
         simp only [List.length_nil, Nat.sub_zero, Nat.add_mul, Nat.mul_add]
         omega
-      have := scanFile_no_fuel fs _ [] root 0 toks {} List.nodup_nil (by intro x hx; cases hx)
+      have := scanIncFile_no_fuel fs _ [] root 0 toks {} List.nodup_nil (by intro x hx; cases hx)
         (get?_mem_ids hroot) hb
       split
       · rename_i e he; intro h; apply this; rw [he]; injection h with h; rw [h]
@@ -149,7 +149,7 @@ theorem scanProject_no_fuel (fs : FS) (root : Nat) : scanProject fs root ≠ .er
     never finishes successfully -/
 theorem cycle_rejected (fs : FS) (fuel : Nat) (stack : List (Nat × Nat)) (cur pos : Nat) (toks : List FTok)
     (st r : PScan) (hs : stack.any (·.1 == cur) = true) (hi : ∃ f v, FTok.incl f v ∈ toks) :
-    scanFile fs fuel stack cur pos toks st ≠ .ok r :=
+    scanIncFile fs fuel stack cur pos toks st ≠ .ok r :=
   incl_on_stack_not_ok fs fuel stack cur pos toks st r hs hi
 
 /-- (3) a root file that includes itself is never accepted -/
@@ -165,9 +165,9 @@ theorem self_include_rejected (fs : FS) (root : Nat) (pre post : List FTok)
   · rename_i st hst
     obtain ⟨fuel', pos', st', h'⟩ := ok_suffix fs [] root _ st pre _ 0 {} hst
     cases fuel' with
-    | zero => rw [scanFile_zero] at h'; cases h'
+    | zero => rw [scanIncFile_zero] at h'; cases h'
     | succ n =>
-      rw [scanFile_incl_file fs n [] root pos' root post _ st' hroot rfl] at h'
+      rw [scanIncFile_incl_file fs n [] root pos' root post _ st' hroot rfl] at h'
       split at h'
       · cases h'
       · rename_i st'' hin
@@ -183,7 +183,7 @@ theorem self_include_first (fs : FS) (root : Nat) (post : List FTok)
   rw [hroot]
   simp only []
   have : (fs.length + 2) * (fsSize fs + 2) + 2 = ((fs.length + 2) * (fsSize fs + 2)) + 1 + 1 := rfl
-  rw [this, scanFile_incl_file fs _ [] root 0 root post _ {} hroot rfl, scanFile_incl, hroot]
+  rw [this, scanIncFile_incl_file fs _ [] root 0 root post _ {} hroot rfl, scanIncFile_incl, hroot]
   simp
 
 /-! ## (7) recorded traces -/
@@ -213,7 +213,7 @@ theorem traces_live (fs : FS) (root : Nat) (forest : List Tree) (traces : List (
         cases h
         intro e he
         obtain ⟨cur, all, p, d, hl, hnot, hc, hp, hid⟩ :=
-          scanFile_traces fs root _ [] root 0 toks {} toks st Live.root hroot (by simp)
+          scanIncFile_traces fs root _ [] root 0 toks {} toks st Live.root hroot (by simp)
             (by intro hs; cases hs) (by intro e he; cases he) hst e he
         exact ⟨cur, all, p, d, hl, List.nodup_cons.mpr ⟨hnot, hl.nodup⟩, hc, hp, hid, hl.length_le, hl.bottom⟩
 
@@ -231,11 +231,11 @@ traces differ between the two runs. The two runs may use different amounts of fu
 theorem include_is_textual (fs : FS) (stack : List (Nat × Nat)) (cur pos f : Nat) (pre body post : List FTok)
     (st : PScan) (hf : fs.get? f = some (.file body)) (hincl : ∀ g v, FTok.incl g v ∉ body)
     (hjs : ∀ d, FTok.dir d ∈ body → d.kind ≠ Kind.Jsight) (hs : stack.any (·.1 == cur) = false) (n1 n2 : Nat)
-    (h1 : scanFile fs n1 stack cur pos (pre ++ FTok.incl f true :: post) st ≠ .error (.inc .fuel))
-    (h2 : scanFile fs n2 stack cur pos (pre ++ (body ++ post)) st ≠ .error (.inc .fuel)) :
-    view (scanFile fs n1 stack cur pos (pre ++ FTok.incl f true :: post) st) =
-      view (scanFile fs n2 stack cur pos (pre ++ (body ++ post)) st) ∨
-    ∃ e, scanFile fs n1 stack cur pos (pre ++ FTok.incl f true :: post) st = .error (.ctx e) := by
+    (h1 : scanIncFile fs n1 stack cur pos (pre ++ FTok.incl f true :: post) st ≠ .error (.inc .fuel))
+    (h2 : scanIncFile fs n2 stack cur pos (pre ++ (body ++ post)) st ≠ .error (.inc .fuel)) :
+    view (scanIncFile fs n1 stack cur pos (pre ++ FTok.incl f true :: post) st) =
+      view (scanIncFile fs n2 stack cur pos (pre ++ (body ++ post)) st) ∨
+    ∃ e, scanIncFile fs n1 stack cur pos (pre ++ FTok.incl f true :: post) st = .error (.ctx e) := by
   refine prefix_lift fs stack cur pre (FTok.incl f true :: post) (body ++ post)
     (fun a b => view a = view b ∨ ∃ e, a = .error (.ctx e)) (fun e => Or.inl rfl) ?_ n1 n2 pos st h1 h2
   intro m p st1 g1 g2
@@ -253,15 +253,15 @@ theorem include_is_textual (fs : FS) (stack : List (Nat × Nat)) (cur pos f : Na
 theorem include_is_textual_ok (fs : FS) (stack : List (Nat × Nat)) (cur pos f : Nat) (pre body post : List FTok)
     (st r : PScan) (hf : fs.get? f = some (.file body)) (hincl : ∀ g v, FTok.incl g v ∉ body)
     (hjs : ∀ d, FTok.dir d ∈ body → d.kind ≠ Kind.Jsight) (hs : stack.any (·.1 == cur) = false) (n1 n2 : Nat)
-    (h1 : scanFile fs n1 stack cur pos (pre ++ FTok.incl f true :: post) st = .ok r)
-    (h2 : scanFile fs n2 stack cur pos (pre ++ (body ++ post)) st ≠ .error (.inc .fuel)) :
-    ∃ r', scanFile fs n2 stack cur pos (pre ++ (body ++ post)) st = .ok r' ∧ r'.ctx = r.ctx ∧
+    (h1 : scanIncFile fs n1 stack cur pos (pre ++ FTok.incl f true :: post) st = .ok r)
+    (h2 : scanIncFile fs n2 stack cur pos (pre ++ (body ++ post)) st ≠ .error (.inc .fuel)) :
+    ∃ r', scanIncFile fs n2 stack cur pos (pre ++ (body ++ post)) st = .ok r' ∧ r'.ctx = r.ctx ∧
       r'.pending = r.pending ∧ closeAll r'.ctx.frames r'.ctx.roots = closeAll r.ctx.frames r.ctx.roots := by
-  have h1' : scanFile fs n1 stack cur pos (pre ++ FTok.incl f true :: post) st ≠ .error (.inc .fuel) := by
+  have h1' : scanIncFile fs n1 stack cur pos (pre ++ FTok.incl f true :: post) st ≠ .error (.inc .fuel) := by
     rw [h1]; intro h; cases h
   rcases include_is_textual fs stack cur pos f pre body post st hf hincl hjs hs n1 n2 h1' h2 with h | ⟨e, h⟩
   · rw [h1] at h
-    cases hr : scanFile fs n2 stack cur pos (pre ++ (body ++ post)) st with
+    cases hr : scanIncFile fs n2 stack cur pos (pre ++ (body ++ post)) st with
     | error e => rw [hr] at h; simp [view] at h
     | ok r' =>
       rw [hr] at h
@@ -276,12 +276,12 @@ theorem include_is_textual_ok (fs : FS) (stack : List (Nat × Nat)) (cur pos f :
 theorem include_is_textual_conv (fs : FS) (stack : List (Nat × Nat)) (cur pos f : Nat) (pre body post : List FTok)
     (st r' : PScan) (hf : fs.get? f = some (.file body)) (hincl : ∀ g v, FTok.incl g v ∉ body)
     (hjs : ∀ d, FTok.dir d ∈ body → d.kind ≠ Kind.Jsight) (hs : stack.any (·.1 == cur) = false) (n1 n2 : Nat)
-    (h1 : scanFile fs n1 stack cur pos (pre ++ FTok.incl f true :: post) st ≠ .error (.inc .fuel))
-    (h2 : scanFile fs n2 stack cur pos (pre ++ (body ++ post)) st = .ok r') :
-    (∃ r, scanFile fs n1 stack cur pos (pre ++ FTok.incl f true :: post) st = .ok r ∧ r.ctx = r'.ctx ∧
+    (h1 : scanIncFile fs n1 stack cur pos (pre ++ FTok.incl f true :: post) st ≠ .error (.inc .fuel))
+    (h2 : scanIncFile fs n2 stack cur pos (pre ++ (body ++ post)) st = .ok r') :
+    (∃ r, scanIncFile fs n1 stack cur pos (pre ++ FTok.incl f true :: post) st = .ok r ∧ r.ctx = r'.ctx ∧
       r.pending = r'.pending ∧ closeAll r.ctx.frames r.ctx.roots = closeAll r'.ctx.frames r'.ctx.roots) ∨
-    scanFile fs n1 stack cur pos (pre ++ FTok.incl f true :: post) st = .error (.ctx .unclosedAtEOF) := by
-  have h2' : scanFile fs n2 stack cur pos (pre ++ (body ++ post)) st ≠ .error (.inc .fuel) := by
+    scanIncFile fs n1 stack cur pos (pre ++ FTok.incl f true :: post) st = .error (.ctx .unclosedAtEOF) := by
+  have h2' : scanIncFile fs n2 stack cur pos (pre ++ (body ++ post)) st ≠ .error (.inc .fuel) := by
     rw [h2]; intro h; cases h
   have key := prefix_lift fs stack cur pre (FTok.incl f true :: post) (body ++ post)
     (fun a b => ∀ r', b = .ok r' →
@@ -299,7 +299,7 @@ theorem include_is_textual_conv (fs : FS) (stack : List (Nat × Nat)) (cur pos f
       · split at this
         · exact Or.inr this
         · rw [hr2] at this
-          cases hc : scanFile fs m stack cur p (FTok.incl f true :: post) st1 with
+          cases hc : scanIncFile fs m stack cur p (FTok.incl f true :: post) st1 with
           | error e => rw [hc] at this; simp [view] at this
           | ok r =>
             rw [hc] at this
